@@ -81,7 +81,9 @@ class CPAAlternativeDistinguisherMixin(CPADistinguisherMixin):
         sigma_data = _np.sqrt(self.processed_traces * self.ey2 - (self.ey) ** 2)
         enum = self.processed_traces * self.exy - _np.matmul(self.ey[:, None], self.ex[None, :])
         denom = _np.matmul(sigma_data[:, None], sigma_traces[None, :])
-        return (enum / denom)
+        result = enum / denom
+        result[_np.isinf(result)] = _np.nan
+        return result
 
 
 class CPADistinguisher(_StandaloneDistinguisher, CPADistinguisherMixin):
